@@ -232,7 +232,11 @@ pub fn build_request(
             "{} {} {}",
             constants::AUTHORIZATION_SCHEME,
             key_guid,
-            helpers::compute_signature(&key, input_to_sign.as_slice())?
+            // Error::Hex quotes the key value; callers log this error, so withhold the key here
+            helpers::compute_signature(&key, input_to_sign.as_slice()).map_err(|e| match e {
+                Error::Hex(_, hex_error) => Error::Hex("<withheld>".to_string(), hex_error),
+                other => other,
+            })?
         );
         request_builder = request_builder.header(
             constants::AUTHORIZATION_HEADER.to_string(),
